@@ -330,6 +330,19 @@ theorem C07_lazy_cursor_drains (o : RecOpt) (docs tfs : List Nat) (hv : ValidLis
     (by rw [heff]; exact hskip) (by rw [heff]; exact hfreq)).2.1 (docs.length / cfg.B + 2)
   rw [h]; exact hopen
 
+/-- … and the term frequencies: when the option stores them, the freshly opened and the recycled
+lazy cursor both show exactly the list's frequencies, block after block -/
+theorem C07_lazy_cursor_freqs (o : RecOpt) (ho : hasFreq o = true) (docs tfs : List Nat)
+    (hv : ValidList docs tfs) :
+    (BlockPostings.drain cfg (docs.length / cfg.B + 2)
+      (BlockPostings.open cfg o o docs.length (encodeTerm cfg o docs tfs))).2 = tfs ∧
+    ∀ p : BlockPostings, p.skip.skipInfo = o → p.freqOpt = .readFreq →
+      (BlockPostings.drain cfg (docs.length / cfg.B + 2)
+        (p.reset cfg docs.length (encodeTerm cfg o docs tfs))).2 = tfs :=
+  ⟨drain_open_encode_tfs cfg o ho (by decide) (by decide) (by decide) C07_bp4x_good docs tfs hv,
+   fun p hs hf => drain_reset_encode_tfs cfg o ho (by decide) (by decide) (by decide) C07_bp4x_good
+     docs tfs hv p hs hf⟩
+
 /-! ### TermInfoStore -/
 
 /-- **TermInfoStore round trip.** For every list of TermInfos whose ranges are ordered, below `2^56`
@@ -559,6 +572,7 @@ example : ValidList [0, 3, 9] (([[1, 2], [5], [0, 0, 7]] : List (List Nat)).map 
   ⟨by decide, by decide, by decide, by decide⟩
 example : (FieldSerializer.writeTerms [⟨2, [1, 2, 3], [9]⟩, ⟨1, [7], []⟩]).infos =
     [⟨2, 0, 3, 0, 1⟩, ⟨1, 3, 4, 1, 1⟩] := by decide
+example : hasFreq .freqs = true ∧ ValidList [2, 4] [3, 1] := ⟨rfl, by decide, by decide, by decide, by decide⟩
 example : 0 < TermInfoStore.BLOCK_LEN ∧ TermInfoStore.BLOCK_LEN = 256 := by decide
 theorem C07_terminfo_example_good :
     TermInfoStore.GoodStore 2 [⟨512, 51, 57, 110, 134⟩, ⟨3, 57, 60, 134, 134⟩, ⟨9, 70, 100, 140, 150⟩] := by
